@@ -232,6 +232,25 @@ def check_lock_shared(ctx):
     return ob
 
 
+def check_lock_acquire(ctx):
+    for name, pat in (('create_new', r'^locked_file::<impl>::create_new$'), ('try_acquire', r'^locked_file::<impl>::try_acquire$')):
+        ob = ctx.ob(f'lock/acquire-{name}', f'LockedFileGuard::{name}: a guard is returned only if try_lock succeeded; a held lock yields Err(Locked)', [pat])
+        ex, paths = ctx.run(pat, cache_key='lockacq.' + name, loop_bound=4)
+        bad = []
+        for p in paths:
+            if p.status != 'returned' or not isinstance(p.ret, EnumV):
+                continue
+            tl = [e for e in p.events if e.kind == 'F_TRY_LOCK']
+            ob.reach += 1
+            if ctx.sat(p.pc + [ret_is_ok(p)], ob)[0] == z3.sat:
+                if not tl:
+                    bad.append((p, 'returns a guard without trying to lock the file')); continue
+                last = tl[-1].res
+                if isinstance(last, EnumV) and ctx.sat(p.pc + [ret_is_ok(p), last.disc != bv(0)], ob)[0] != z3.unsat:
+                    bad.append((p, 'returns a guard although try_lock failed'))
+        finish(ctx, ob, bad, f'LockedFileGuard.{name}/lock-not-enforced', lambda: native_lock_and_marker(ctx))
+
+
 def check_drop(ctx):
     pat = r'^db::<impl>::drop$'
     ob = ctx.ob('drop/waits', 'DatabaseInner::drop leaves the wait loop only when the thread counter reads 0, then clears keyspaces / flush queue / journal manager; Journal::drop persists with SyncAll', [pat, r'^journal::<impl>::drop$'])
@@ -313,6 +332,17 @@ def native_lock_and_marker(ctx):
     dumps = [r for c, r in rs if c == 'dump']
     if dumps and dumps[0] != '[6b31:31]':
         return True, spath, f'content after the last handle was dropped and the directory reopened: {dumps[0]}'
+    # worker threads must be gone when the last handle has been dropped
+    L2 = ['dir $DIR/db2', 'open workers=2', 'ks a', 'insert a 6b31 31', 'rotate a', 'threads', 'close', 'threads', 'open workers=2', 'ks a', 'dump a', 'close', 'threads']
+    sp2, out2 = ctx.run_scenario('\n'.join(L2) + '\n', tag='threads')
+    th = [r for _i, c, r in out2 if c == 'threads']
+    if any(c == 'CRASH' for _i, c, _r in out2):
+        return True, sp2, 'crash: ' + out2[-1][2][-200:]
+    if len(th) == 3 and (th[1] != 'workers=0' or th[2] != 'workers=0'):
+        return True, sp2, f'worker threads still alive after the last handle was dropped: {th}'
+    op2 = [r for _i, c, r in out2 if c == 'open']
+    if len(op2) == 2 and op2[1] != 'ok':
+        return True, sp2, f'reopening right after the last handle was dropped failed: {op2[1]}'
     r2 = native_marker(ctx, [b'FJL\x02', b'FJL\x04', b'', b'FJL', b'XJL\x03'])
     return r2 if r2[0] else (False, spath, 'held natively')
 
@@ -328,6 +358,7 @@ def run(ctx):
     check_recover_order(ctx)
     check_create_order(ctx)
     check_lock_shared(ctx)
+    check_lock_acquire(ctx)
     check_drop(ctx)
     for o in ctx.obligations:
         ctx.samples.append(o.as_dict())
